@@ -87,7 +87,9 @@ pub fn is_symmetric(m: &[f64]) -> bool {
     let n = is_square(m).unwrap();
     for i in 0..n {
         for j in i..n {
-            if (m[i * n + j] - m[j * n + i]).abs() > f64::EPSILON {
+            // relative tolerance: an absolute one calls every tiny-valued matrix symmetric
+            let scale = m[i * n + j].abs().max(m[j * n + i].abs());
+            if (m[i * n + j] - m[j * n + i]).abs() > f64::EPSILON * scale {
                 return false;
             }
         }
